@@ -260,7 +260,14 @@ impl Check for C05 {
     }
     fn gen(&self, rng: &mut Rng, tier: Tier, _index: u64) -> Scenario {
         let mut sc = Scenario::new("C05", "seq", rng.next_u64());
-        let hz = if rng.chance(1, 6) { 0 } else { rng.range(1, 255) };
+        let hz = if rng.chance(1, 6) {
+            0
+        } else if rng.chance(1, 3) {
+            // the rates at the ends of the range and a few that do / do not divide 10^9
+            *rng.pick(&[1, 1, 2, 3, 7, 15, 20, 60, 128, 254, 255])
+        } else {
+            rng.range(1, 255)
+        };
         sc.set("hz", hz);
         sc.set("multi", rng.chance(1, 3) as u64);
         let i = if hz > 0 { 1_000_000_000 / hz } else { 1_000_000 };
@@ -280,6 +287,25 @@ impl Check for C05 {
         ];
         let w_op: [u32; 8] = [rng.range(1, 8) as u32, rng.range(0, 5) as u32, rng.range(0, 8) as u32, rng.range(0, 3) as u32, rng.range(0, 1) as u32, rng.range(0, 1) as u32, rng.range(0, 1) as u32, rng.range(0, 2) as u32];
         let mut ops = vec![];
+        if rng.chance(1, 4) {
+            // burst - idle - burst: empty the bucket, idle for about k intervals (k around the
+            // burst size), burst again
+            for _ in 0..rng.range(1, 3) {
+                for _ in 0..rng.range(18, 45) {
+                    ops.push(if rng.chance(4, 5) { Op::new("tick") } else { Op::new("inc").n(1) });
+                    if rng.chance(1, 6) {
+                        ops.push(Op::new("gap").n(rng.below(1000)));
+                    }
+                }
+                let k = *rng.pick(&[1u64, 2, 10, 19, 20, 20, 21, 22, 40]);
+                ops.push(Op::new("gap").n(k * i + rng.below(i.max(2))));
+            }
+            for _ in 0..rng.range(18, 45) {
+                ops.push(Op::new("tick"));
+            }
+            sc.threads = vec![ops];
+            return sc;
+        }
         for _ in 0..n {
             let jit = *rng.pick(&[0i64, 0, 1, -1, 1000, -1000]);
             let gap: u64 = match rng.weighted(&w_gap) {
